@@ -13,6 +13,7 @@ CONSTANTS
   STAMPCHECK = TRUE
   ACSTAMPCHECK = TRUE
   TRAVOFF = 1
+  RETAINCHECK = TRUE
 INVARIANTS Linearizable NoDeadlock ResizeSafe QuiescentOK ReadersNeverBlock IterWeak GhostOK
 PROPERTY NeverShrinks
 VIEW view
